@@ -3,6 +3,7 @@ package props
 import (
 	"encoding/json"
 	"fmt"
+	"regexp"
 	"sort"
 	"strconv"
 	"strings"
@@ -394,7 +395,7 @@ type c06Route struct {
 	PostObs string                  // extra statements before the final observation (e.g. re-read)
 }
 
-var c06Prelude = "<?php\nclass Box { public $p; function get() { return $this->p; } static $sp; static function sget() { return self::$sp; } }\nfunction ident($x) { return $x; }\nfunction firstOf($o) { return $o->p; }\n$GLOBALS['gstore'] = null;\nfunction gget() { global $gstore; return $gstore; }\n"
+var c06Prelude = "<?php\nclass Box { public $p; function get() { return $this->p; } static $sp; static function sget() { return self::$sp; } }\nfunction ident($x) { return $x; }\nfunction mkGapped() { $a = [40, 10, 30, 20]; unset($a[1]); return $a; }\nfunction mkStrKeyed() { $a = [3, 1, 2]; $a[\"k\"] = 0; return $a; }\nfunction mkPopped() { $a = [3, 1, 2, 9]; array_pop($a); return $a; }\nfunction firstOf($o) { return $o->p; }\n$GLOBALS['gstore'] = null;\nfunction gget() { global $gstore; return $gstore; }\n"
 
 var c06Routes = []c06Route{
 	{Name: "assign", Setup: func(l string) string { return "$orig = " + l + ";\n$copy = $orig;\n" }, Orig: "$orig", Copy: "$copy", Sides: []string{"copy", "orig"}},
@@ -422,6 +423,7 @@ type c06Case struct {
 	After                   string `json:"after"`  // normalised snapshot of the mutated side afterwards (model)
 	Shared                  bool   `json:"shared"`
 	LeakOnly                bool   `json:"leak_only,omitempty"`
+	Raw                     bool   `json:"raw,omitempty"` // built shape: "before" is what the run itself observed, snapshots compared unnormalised (integer keys count)
 }
 
 func mkC06Case(route, shapeName, side string, sh *aArr, m c06Mut, shared bool, src string) c06Case {
@@ -435,22 +437,59 @@ func c06Script(r c06Route, shape *aArr, m c06Mut, side string) string {
 	if side == "orig" {
 		L = r.Orig
 	}
+	return c06ScriptRaw(r, aLit(shape), m.Text(L, shape))
+}
+
+func c06ScriptRaw(r c06Route, lit, mutText string) string {
 	var sb strings.Builder
 	sb.WriteString(c06Prelude)
-	sb.WriteString(r.Setup(aLit(shape)))
+	sb.WriteString(r.Setup(lit))
 	fmt.Fprintf(&sb, "__obs(\"orig0\", %s);\n__obs(\"copy0\", %s);\n", r.Orig, r.Copy)
-	fmt.Fprintf(&sb, "try { %s } catch (Throwable $e) { __obs(\"!mut\", $e->getMessage()); }\n", m.Text(L, shape))
+	fmt.Fprintf(&sb, "try { %s } catch (Throwable $e) { __obs(\"!mut\", $e->getMessage()); }\n", mutText)
 	fmt.Fprintf(&sb, "__obs(\"orig1\", %s);\n__obs(\"copy1\", %s);\n", r.Orig, r.Copy)
 	return sb.String()
 }
 
 // by-value parameter route has its own script: the callee mutates its parameter.
 func c06ParamScript(shape *aArr, m c06Mut) string {
+	return c06ParamScriptRaw(aLit(shape), m.Text("$arr", shape))
+}
+
+func c06ParamScriptRaw(lit, mutText string) string {
 	var sb strings.Builder
 	sb.WriteString(c06Prelude)
-	fmt.Fprintf(&sb, "function touch($arr) {\n    __obs(\"copy0\", $arr);\n    try { %s } catch (Throwable $e) { __obs(\"!mut\", $e->getMessage()); }\n    __obs(\"copy1\", $arr);\n    return 0;\n}\n", m.Text("$arr", shape))
-	fmt.Fprintf(&sb, "$orig = %s;\n__obs(\"orig0\", $orig);\ntouch($orig);\n__obs(\"orig1\", $orig);\n", aLit(shape))
+	fmt.Fprintf(&sb, "function touch($arr) {\n    __obs(\"copy0\", $arr);\n    try { %s } catch (Throwable $e) { __obs(\"!mut\", $e->getMessage()); }\n    __obs(\"copy1\", $arr);\n    return 0;\n}\n", mutText)
+	fmt.Fprintf(&sb, "$orig = %s;\n__obs(\"orig0\", $orig);\ntouch($orig);\n__obs(\"orig1\", $orig);\n", lit)
 	return sb.String()
+}
+
+// built arrays: produced by statements (unset, keyed append, explicit integer keys), so that their slots carry
+// explicit key names; and plain lists for the library functions that reorder
+var c06Built = [][2]string{
+	{"gapped", "mkGapped()"}, {"sparse", "[0 => 5, 2 => 3, 7 => 9, 4 => 1]"}, {"strkey-appended", "mkStrKeyed()"},
+	{"list", "[3, 1, 2]"}, {"strs", "[\"b\", \"a\", \"c\"]"}, {"nested", "[[2, 1], [4, 3]]"}, {"popped", "mkPopped()"},
+}
+
+// library functions that take the array by reference: judged for independence only (the other name keeps
+// keys, order and values)
+var c06LibMuts = []struct {
+	Name string
+	Text func(L string) string
+}{
+	{"sort", func(L string) string { return "sort(" + L + ");" }},
+	{"rsort", func(L string) string { return "rsort(" + L + ");" }},
+	{"usort", func(L string) string { return "usort(" + L + ", function($x, $y) { return $y <=> $x; });" }},
+	{"ksort", func(L string) string { return "ksort(" + L + ");" }},
+	{"krsort", func(L string) string { return "krsort(" + L + ");" }},
+	{"array_shift", func(L string) string { return "array_shift(" + L + ");" }},
+	{"array_unshift", func(L string) string { return "array_unshift(" + L + ", 77);" }},
+	{"array_splice", func(L string) string { return "array_splice(" + L + ", 1, 1, [77, 78]);" }},
+	{"array_push", func(L string) string { return "array_push(" + L + ", 77, 78);" }},
+	{"array_pop", func(L string) string { return "array_pop(" + L + ");" }},
+	{"array_walk-by-ref", func(L string) string { return "array_walk(" + L + ", function(&$v, $k) { $v = 77; });" }},
+	{"foreach-by-ref", func(L string) string { return "foreach (" + L + " as &$v) { $v = 77; } unset($v);" }},
+	{"unset-first", func(L string) string { return "unset(" + L + "[0]);" }},
+	{"sort-then-append", func(L string) string { return "sort(" + L + "); " + L + "[] = 77;" }},
 }
 
 // static-local return route: mutate the returned array, the next call must return the pristine one.
@@ -494,6 +533,12 @@ func c06Judge(pool *sb.Pool, rec *sb.Rec, c c06Case) []*failure {
 	}
 	before, afterS := c.Before, c.After
 	o0, c0, o1, c1 := normSnap(o["orig0"]), normSnap(o["copy0"]), normSnap(o["orig1"]), normSnap(o["copy1"])
+	if c.Raw {
+		// integer keys keep their number; only the spelling "2"=> of a named integer slot is unified with 2=>
+		// (scripts cannot tell them apart)
+		o0, c0, o1, c1 = rawKeyRe.ReplaceAllString(o["orig0"], "$1=>"), rawKeyRe.ReplaceAllString(o["copy0"], "$1=>"), rawKeyRe.ReplaceAllString(o["orig1"], "$1=>"), rawKeyRe.ReplaceAllString(o["copy1"], "$1=>")
+		before = o0
+	}
 	if o0 != before || c0 != before {
 		mk("setup", fmt.Sprintf("before the mutation the two names do not both hold the array: orig=%s copy=%s want %s", o0, c0, before))
 		return out
@@ -524,11 +569,13 @@ func c06Judge(pool *sb.Pool, rec *sb.Rec, c c06Case) []*failure {
 	return out
 }
 
+var rawKeyRe = regexp.MustCompile(`"(\d+)"=>`)
+
 func TestC06(t *testing.T) {
 	cfg := sb.LoadConfig("C06")
 	rec := sb.NewRec(cfg)
 	defer rec.Flush()
-	rec.R.Rule = "complete enumeration of (array shape: empty / list / string-keyed / nested to depth 3 / mixed / strings) x (aliasing route: assign, by-value parameter, return, return of a static local, store into / read from a property, store into / read from an outer array, clone, getter / function / static getter / closure returning stored state; positive controls: & reference, object handle) x (12 single mutations with a modelled effect + 5 two-step mutations over sparse / unset / popped integer keys judged for independence only) x (mutated side); rapid adds random shapes and sequences of 2-3 mutations. Non-trivial = the mutation changes the mutated side in the model; distinct by (route, shape, mutation, side)."
+	rec.R.Rule = "complete enumeration of (array shape: empty / list / string-keyed / nested to depth 3 / mixed / strings) x (aliasing route: assign, by-value parameter, return, return of a static local, store into / read from a property, store into / read from an outer array, clone, getter / function / static getter / closure returning stored state; positive controls: & reference, object handle) x (12 single mutations with a modelled effect + 5 two-step mutations over sparse / unset / popped integer keys judged for independence only) x (mutated side); plus (7 arrays built by statements: gapped by unset, explicit sparse integer keys, string key appended, popped, lists) x (14 library calls taking the array by reference: sort family, shift / unshift / splice / push / pop, by-reference walk and foreach) x (route) x (side), judged for independence only on unnormalised snapshots; rapid adds random shapes and sequences of 2-3 mutations. Non-trivial = the mutation changes the mutated side in the model; distinct by (route, shape, mutation, side)."
 	pool := &sb.Pool{}
 	defer pool.Close()
 	dl := time.Now().Add(budget(cfg, 50, 600))
@@ -582,6 +629,27 @@ func TestC06(t *testing.T) {
 			// by-value parameter: the callee mutates; snapshots: copy0/copy1 inside, orig0/orig1 outside
 			run(mkC06Case("param", sn, "copy", sh, m, false, c06ParamScript(sh, m)))
 			run(mkC06Case("static-return", sn, "copy", sh, m, false, c06StaticScript(sh, m)))
+		}
+	}
+	// library functions over built arrays
+	for _, b := range c06Built {
+		for _, m := range c06LibMuts {
+			mk := func(route, side, src string) c06Case {
+				return c06Case{Route: route, Shape: "built:" + b[0], Mut: "lib:" + m.Name, Side: side, Src: src, LeakOnly: true, Raw: true}
+			}
+			for _, r := range c06Routes {
+				if r.Shared {
+					continue
+				}
+				for _, side := range r.Sides {
+					L := r.Copy
+					if side == "orig" {
+						L = r.Orig
+					}
+					run(mk(r.Name, side, c06ScriptRaw(r, b[1], m.Text(L))))
+				}
+			}
+			run(mk("param", "copy", c06ParamScriptRaw(b[1], m.Text("$arr"))))
 		}
 	}
 	rec.R.Exhaustive = true
